@@ -329,7 +329,8 @@ def message_from_cache_entry(ctx):
     used = {n.id for n in body_walk(mu.node) if isinstance(n, ast.Name) and isinstance(n.ctx, ast.Load)}
     consts = {n for n in used if n in mu.module.imports or n in mu.module.consts}
     stored = {n.id for n in body_walk(mu.node) if isinstance(n, ast.Name) and isinstance(n.ctx, ast.Store)}      # locals computed from the arguments
-    extra = used - params - consts - {'str'} - stored
+    helpers = {n for n in used if f'{mu.module.name}.{n}' in m.functions}      # functions of the dispatcher module that are given the cache entry
+    extra = used - params - consts - {'str'} - stored - helpers
     ctx.check(not extra, f'{mu.qualname}:reads only the cache entry', mu.node,
               'message is a function of (modulename, cache entry) and protocol constants only',
               f'make_update depends on other state: {sorted(extra)}', mu)
@@ -516,7 +517,7 @@ def update_message_follows_the_error_state(ctx):
         ctx.check('EVENTREPLY' in src(action), f'{mu.qualname}:{kind} update action', r, src(action), f'action `{src(action)}` is not built from EVENTREPLY', mu)
         ok_spec = isinstance(spec, ast.JoinedStr) and f'{p}.export' in src(spec) and mu.node.args.args[0].arg in src(spec)
         ctx.check(ok_spec, f'{mu.qualname}:{kind} update specifier', r, src(spec), f'specifier `{src(spec)}` is not <module>:<exported name>', mu)
-        d = src(data)
+        d = src(resolved(data, mu.node))
         if is_err:
             ctx.check(f'{p}.readerror.name' in d and f'str({p}.readerror)' in d, f'{mu.qualname}:error update data', r, d,
                       f'`{d}` does not carry the error class name and text of the cached error', mu)
@@ -604,3 +605,12 @@ def a_lost_frame_ends_the_connection(ctx):
     no longer reproduces the cache (a recovery from an error is then never announced to it)"""
     from sa.rules import c08
     c08.a_message_is_delivered_or_the_connection_dropped(ctx)
+
+
+@rule('C05.R13', min_instances=9)
+def update_messages_carry_the_transport_form_of_every_member(ctx):
+    """shared with C02.R2: make_update sends Parameter.export_value(), which for a container parameter has to go through
+    export_value of the member datatypes - an array of scaled integers / enums / blobs exported with the member's validating
+    __call__ puts internal values on the wire, and replaying the messages does not reproduce the cached value"""
+    from sa.rules import c02
+    c02.container_delegation(ctx)
